@@ -30,8 +30,21 @@ class SmallTZone(dns.btreezone.Zone):
     map_factory = staticmethod(lambda: dns.btree.BTreeDict(t=3))
 
 
-ZONE_KINDS = {"versioned": dns.versioned.Zone, "btree": dns.btreezone.Zone, "btree-small-t": SmallTZone}
-NFILL = 12
+ZONE_KINDS = {"versioned": dns.versioned.Zone, "btree": dns.btreezone.Zone, "btree-small-t": SmallTZone,
+              "btree-full-root": dns.btreezone.Zone, "btree-full-child": dns.btreezone.Zone,
+              "btree-steal": dns.btreezone.Zone}
+# filler names: 12 for the small-branching-factor zone; for the default branching factor 253 = 2t-1
+# delegation points (full root of the delegation index) and 380 (root + a minimal and a full child)
+NFILLS = {"btree-small-t": 12, "btree-full-root": 253, "btree-full-child": 380, "btree-steal": 380}
+FULL_KINDS = ("btree-full-root", "btree-full-child", "btree-steal")
+
+
+def filler(kind, i, base):
+    # in the full-root zone the fillers are delegations: the delegation index (a B-tree set that,
+    # unlike the node map, is not rewritten name by name at commit) then has a full root node
+    if kind in FULL_KINDS:
+        return dns.rdata.from_text("IN", "NS", "ns%d.other." % i)
+    return dns.rdata.from_text("IN", "A", "10.%d.0.%d" % (base, i))
 
 
 def trace_codes(level):
@@ -78,9 +91,9 @@ class Harness:
             with z.writer(True) as txn:
                 txn.add("@", 300, dns.rdata.from_text("IN", "SOA", ". . 1 2 3 4 5"))
                 txn.add("log", 300, txt("-"))
-                if kind == "btree-small-t":
-                    for i in range(NFILL):
-                        txn.add("f%02d" % i, 300, dns.rdata.from_text("IN", "A", "10.1.0.%d" % i))
+                if kind in NFILLS:
+                    for i in range(NFILLS[kind]):
+                        txn.add("f%03d" % i, 300, filler(kind, i, 1))
         except BaseException:
             dns.versioned.threading = real_threading
             raise
@@ -121,11 +134,25 @@ class Harness:
                 if upoints >= 3:
                     sc.point()
                 txn.add("n2", 300, dns.rdata.from_text("IN", "A", "10.0.0.%d" % wid))
-                if self.cfg["kind"] == "btree-small-t":
+                if self.cfg["kind"] in NFILLS:
+                    NFILL = NFILLS[self.cfg["kind"]]
                     # every third filler across the whole name range: splits, steals from both
                     # sides and merges in nodes that are shared with the versions readers pin
+                    if self.cfg["kind"] in FULL_KINDS:
+                        # first an insert into the full (rightmost) node of the delegation index
+                        # (btree-steal: first a delete in the minimal left node, which must take a
+                        # name from its full right sibling)
+                        if self.cfg["kind"] == "btree-steal":
+                            txn.delete("f%03d" % wid)
+                            txn.add("f%03d" % wid, 300, filler(self.cfg["kind"], wid, 1))
+                        txn.add("f%03dy" % (NFILL - wid), 300, filler(self.cfg["kind"], wid, 3))
+                        txn.delete("f%03dy" % (NFILL - wid))
                     for i in range(wid % 3, NFILL, 3):
-                        txn.delete("f%02d" % i)
+                        txn.delete("f%03d" % i)
+                    # ... and new names next to every third remaining one: inserts into (and
+                    # splits of) full shared nodes
+                    for i in range((wid + 1) % 3, NFILL, 3):
+                        txn.add("f%03dx" % i, 300, filler(self.cfg["kind"], i, 2))
                 if upoints >= 1:
                     sc.point()
             finally:
@@ -167,10 +194,19 @@ class Harness:
             if upoints >= 2:
                 sc.point()
             b = get_as(txn, "n2")
-            if self.cfg["kind"] == "btree-small-t":
-                fill = sorted(str(n)[:3] for n in txn.iterate_names() if str(n).startswith("f"))
-                gone = {int(ch) % 3 for ch in (log or "")[1:]}
-                want = sorted("f%02d" % i for i in range(NFILL) if i % 3 not in gone)
+            if self.cfg["kind"] in NFILLS:
+                NFILL = NFILLS[self.cfg["kind"]]
+                fill = sorted(str(n) for n in txn.iterate_names() if str(n).startswith("f"))
+                committed = [int(ch) for ch in (log or "")[1:]]
+                gone = {w % 3 for w in committed}
+                added = {(w + 1) % 3 for w in committed}
+                want = sorted(["f%03d" % i for i in range(NFILL) if i % 3 not in gone] +
+                              ["f%03dx" % i for i in range(NFILL) if i % 3 in added])
+                if self.cfg["kind"] in FULL_KINDS:
+                    dele = sorted(str(n) for n in txn.version.delegations)
+                    if dele != want:
+                        sc.problem("reader-partial-state", "reader %d (log %r): delegation index of its version has %d names, its content %d (first difference %s)" % (
+                            rid, log, len(dele), len(want), sorted(set(dele) ^ set(want))[:3]))
                 if fill != want:
                     sc.problem("reader-partial-state", "reader %d (log %r) sees filler names %s, its version holds %s" % (rid, log, fill, want))
             pinned("before closing")
@@ -355,6 +391,9 @@ def configs(ctx):
         add("versioned", 3, 1, ("commit", "commit", "commit"), "sync", 1, 1)
         add("btree", 3, 0, ("commit", "commit", "rollback"), "line", 1, 1)
         add("btree-small-t", 2, 1, ("commit", "rollback"), "sync", 2, 2)
+        add("btree-full-root", 1, 1, ("commit",), "sync", 2, 2)
+        add("btree-full-child", 1, 1, ("rollback",), "sync", 2, 2)
+        add("btree-steal", 1, 1, ("commit",), "sync", 2, 2)
     else:
         add("versioned", 3, 0, ("commit", "commit", "commit"), "line", 0, 2)
         add("versioned", 3, 0, ("commit", "rollback", "commit-with"), "line", 1, 2)
@@ -372,6 +411,10 @@ def configs(ctx):
         add("btree", 3, 0, ("commit", "commit", "commit"), "line", 0, 2)
         add("btree-small-t", 3, 1, ("commit", "rollback", "commit"), "sync", 2, 2)
         add("btree-small-t", 2, 2, ("commit", "commit"), "sync", 2, 2)
+        add("btree-full-root", 2, 1, ("commit", "rollback"), "sync", 2, 2)
+        add("btree-full-child", 2, 1, ("rollback", "commit"), "sync", 2, 2)
+        add("btree-full-child", 1, 2, ("commit",), "sync", 2, 2)
+        add("btree-steal", 2, 1, ("commit", "rollback"), "sync", 2, 2)
     return out
 
 
